@@ -119,6 +119,21 @@ Section C20.
   Proof. exact (C20_copy_then_move fault). Qed.
 End C20.
 
+(* the RETRY history: a Copy that failed - at any primitive call, under any fault oracle - has not touched the source
+   directory; when it is tried again through the same handle into the same destination and succeeds, every file in the
+   destination is identical to its original and the originals are intact, whatever the first attempt left behind *)
+Require U20f.
+Theorem C20_copy_leaves_the_source_directory : forall fault h dest x x' ok, h_dir h <> dest -> do_copy fault h dest x = (x', ok) ->
+  forall n, fs_get (h_dir h, n) (fs x') = fs_get (h_dir h, n) (fs x).
+Proof. exact U20f.copy_source_frame. Qed.
+Theorem C20_copy_retry_after_failure : forall fault1 fault2 h dest x x1 x2, h_dir h <> dest -> NoDup (h_listed h) -> ~ In (h_file h) (h_listed h) ->
+  do_copy fault1 h dest x = (x1, false) -> do_copy fault2 h dest x1 = (x2, true) ->
+  forall n, In n (h_file h :: h_listed h) ->
+    fs_get (dest, n) (fs x2) = fs_get (h_dir h, n) (fs x) /\ fs_get (h_dir h, n) (fs x) <> None /\
+    fs_get (h_dir h, n) (fs x2) = fs_get (h_dir h, n) (fs x).
+Proof. exact U20f.copy_retry_is_identical. Qed.
+Print Assumptions C20_copy_retry_after_failure.
+
 (* the path library underneath, no longer an oracle: for a plain name (what checkListedFilename accepts) and a clean
    absolute directory, path.Join(dir, name) is the entry `name` of that directory - the path the model's (directory,
    name) pairs stand for - its filepath.Base is the name and its filepath.Dir the directory; PATH.v is run against the Go
